@@ -20,21 +20,36 @@ for sid in sorted(os.listdir(os.path.join(VERIF, 'seeded'))):
     meta_p = os.path.join(d, 'meta.json')
     meta = json.load(open(meta_p)) if os.path.exists(meta_p) else {}
     prop = meta.get('property') or ('C16' if sid.startswith('c16') else 'C17')
-    r = sh('git', '-C', '/repo', 'apply', os.path.join(d, 'patch.diff'))
+    copy_mode = os.environ.get('SEEDED_MODE') == 'copy'
+    if copy_mode:
+        # scratch copy outside /repo and /verif (removed afterwards); /repo is not touched
+        import tempfile, shutil
+        tmp = tempfile.mkdtemp(prefix='a5seed-')
+        shutil.copytree('/repo/a5', os.path.join(tmp, 'a5'), ignore=shutil.ignore_patterns('__pycache__'))
+        r = sh('git', 'apply', os.path.join(d, 'patch.diff'), cwd=tmp)
+        root = tmp
+    else:
+        r = sh('git', '-C', '/repo', 'apply', os.path.join(d, 'patch.diff'))
+        root = '/repo'
     if r.returncode != 0:
         rows.append((sid, prop, 'patch does not apply', 0))
+        print(sid, 'patch does not apply', r.stderr[:200])
         continue
     try:
         t0 = time.time()
         env = dict(os.environ, A5SIM_REPLAY_DIR='/tmp/seeded-replays')
-        p = sh('/venv/bin/python', os.path.join(VERIF, 'check'), prop, '--tier', tier, '--no-evidence', env=env, timeout=7200)
+        p = sh('/venv/bin/python', os.path.join(VERIF, 'check'), prop, '--tier', tier, '--no-evidence', '--a5-root', root, env=env, timeout=7200)
         dt = time.time() - t0
     finally:
-        sh('git', '-C', '/repo', 'checkout', '--', '.')
+        if copy_mode:
+            shutil.rmtree(tmp, ignore_errors=True)
+        else:
+            sh('git', '-C', '/repo', 'checkout', '--', '.')
     lines = [l for l in p.stdout.splitlines() if l.startswith(('run ', 'minimised', 'VIOLATION', 'HARNESS', prop + ' held'))]
     res = 'detected' if (p.returncode == 1 and any(l.startswith('VIOLATION property=%s' % prop) for l in lines)) else \
           ('MISSED' if p.returncode == 0 else 'harness-error')
-    meta['last_run'] = {'tier': tier, 'result': res, 'seconds': round(dt, 1), 'output': lines[:4]}
+    meta.setdefault('runs', {})['VERIF_SEED=%s' % os.environ.get('VERIF_SEED', '0')] = {'result': res, 'seconds': round(dt, 1)}
+    meta['last_run'] = {'tier': tier, 'VERIF_SEED': os.environ.get('VERIF_SEED', '0'), 'result': res, 'seconds': round(dt, 1), 'output': lines[:4]}
     json.dump(meta, open(meta_p, 'w'), indent=1)
     rows.append((sid, prop, res, dt))
     print('%-8s %-4s %-14s %6.0fs  %s' % (sid, prop, res, dt, (lines[0][:150] if lines else '')), flush=True)
